@@ -299,7 +299,7 @@ pub fn reachable_from(p: &Program, root: usize) -> Vec<bool> {
                     flags[*h] = *on;
                 }
                 tracked_at_use[i] = args.iter().map(|a| flags[*a]).collect();
-                let mut f = args.iter().any(|a| flags[*a]) || kind.forces_tracking();
+                let mut f = kind.result_tracked(args.iter().any(|a| flags[*a]));
                 if kind.is_alias() {
                     f = flags[args[0]];
                 }
@@ -322,8 +322,9 @@ pub fn reachable_from(p: &Program, root: usize) -> Vec<bool> {
                 reach[args[0]] = true;
                 continue;
             }
-            // a node built from untracked operands only records no children
-            if !tracked_at_use[i].iter().any(|t| *t) {
+            // a node built from untracked operands only records no children; neither does the result of a user
+            // operation without a derivative that builds its result from raw values
+            if !tracked_at_use[i].iter().any(|t| *t) || matches!(kind, OpKind::CGate) {
                 continue;
             }
             for (a, t) in args.iter().zip(&tracked_at_use[i]) {
@@ -388,7 +389,7 @@ pub fn flags_at_use(p: &Program) -> Vec<Vec<bool>> {
                     flags[*h] = *on;
                 }
                 out[i] = args.iter().map(|a| flags[*a]).collect();
-                let mut f = args.iter().any(|a| flags[*a]) || kind.forces_tracking();
+                let mut f = kind.result_tracked(args.iter().any(|a| flags[*a]));
                 if kind.is_alias() {
                     f = flags[args[0]];
                 }
